@@ -5,6 +5,7 @@ import SluProofs.Lemmas.CxRat
 import SluProofs.Lemmas.Trsv
 import SluProofs.Lemmas.TrsvLayout
 import SluProofs.Lemmas.Cblas
+import Slu.Model.Lacon
 import SluProofs.Lemmas.Cblas2
 /-
 C14 — Sparse triangular solve / multiply kernels compute the documented operation.
@@ -825,5 +826,79 @@ example : gemv Tr.N 3 2 (2 : Rat) #[1, 2, 3, 99, 4, 5, 6, 99] 4 #[10, 1] (-1) 3 
 example : gemv Tr.T 3 2 (1 : Rat) #[1, 2, 3, 99, 4, 5, 6, 99] 4 #[1, 1, 1] 1 0 #[7, 7] (-1) = #[15, 6] := by decide +kernel
 example := gemv_spec Tr.N 3 2 4 (2 : Rat) 3 #[1, 2, 3, 99, 4, 5, 6, 99] #[10, 1] #[1, 0, 1, 0, 1] (-1) 2
   (by decide) (by decide) (by decide) (by decide)
+
+end Slu.Cblas
+
+/-! ## Connection to the 1-norm estimator's own BLAS-1 mirrors (Slu/Model/Lacon.lean, C12)
+
+`lacon2` was modelled "with the bundled dasum/idamax": `Lacon.asumD` (a plain left-to-right fold),
+`Lacon.asumS` (blocks of six in double) and `Lacon.imaxBy`.  They are EQUAL — at `Float`/`Float32`,
+no algebraic law involved — to this file's statement-order mirrors with unit increment, so the
+bit comparison of family `cblas` and the theorems above cover the kernels C12 runs on. -/
+namespace Slu.Cblas
+open Slu
+
+theorem f2cabs_eq_lacon_d (a : Float) : f2cabs a = Lacon.f2cAbs a := rfl
+theorem f2cabs_eq_lacon_s (a : Float32) : f2cabs a = Lacon.f2cAbs a := rfl
+
+/-- the `dasum_` mirror of the 1-norm estimator (Slu/Model/Lacon.lean, a plain left-to-right fold) IS
+this file's statement-order mirror with its clean-up loop and blocks of six, at `Float` -/
+theorem asumR_eq_lacon_asumD (x : Array Float) : asumR (x.size : Int) x 1 = Lacon.asumD x := by
+  unfold asumR Lacon.asumD
+  by_cases h : x.size = 0
+  · have : x = #[] := Array.eq_empty_of_size_eq_zero h
+    subst this; simp
+  · have hc : ¬ (((x.size : Nat) : Int) ≤ 0 ∨ (1 : Int) ≤ 0) := by omega
+    simp only [hc, if_false, ne_eq, not_true_eq_false, Int.toNat_natCast]
+    rw [unrolled_eq_loop 6]
+    · exact loop_getD_eq_foldl x 0 (fun acc a => acc + Lacon.f2cAbs a) 0
+    · intro t b; rfl
+
+/-- the same for `sasum_` (blocks of six accumulated in double, rounded once per block) -/
+theorem asumR_eq_lacon_asumS (x : Array Float32) : asumR (x.size : Int) x 1 = Lacon.asumS x := by
+  unfold asumR Lacon.asumS
+  by_cases h : x.size = 0
+  · have : x = #[] := Array.eq_empty_of_size_eq_zero h
+    subst this; rfl
+  · have hc : ¬ (((x.size : Nat) : Int) ≤ 0 ∨ (1 : Int) ≤ 0) := by omega
+    simp only [hc, if_false, ne_eq, not_true_eq_false, Int.toNat_natCast]
+    by_cases hq : x.size % 6 ≠ 0 ∧ x.size < 6
+    · have h6 : x.size / 6 = 0 := Nat.div_eq_of_lt hq.2
+      simp only [hq, not_false_eq_true, and_self, if_true]
+      unfold unrolled
+      rw [h6, loop_zero]
+      rfl
+    · have h6 : (x.size - x.size % 6) / 6 = x.size / 6 := by omega
+      simp only [hq, if_false, h6]
+      rfl
+
+/-- `idamax_`/`isamax_` with unit increment is the estimator's `imaxBy` (0-based there) -/
+theorem iamaxR_eq_lacon_imaxBy {R : Type} [Zero R] [Neg R] [LE R] [DecidableLE R] (x : Array R) (hx : 1 ≤ x.size) :
+    iamaxR (x.size : Int) x 1 = ((Lacon.imaxBy (fun a : R => f2cabs a) 0 x : Nat) : Int) + 1 := by
+  unfold iamaxR Lacon.imaxBy
+  have hc : ¬ (((x.size : Nat) : Int) < 1 ∨ (1 : Int) ≤ 0) := by omega
+  simp only [hc, if_false, Int.toNat_natCast, spos_one]
+  by_cases h1 : x.size = 1
+  · simp [h1]
+  · have h1' : ¬ ((x.size : Int) = 1) := by omega
+    simp only [h1', if_false]
+    let G : Nat × R → Nat → Nat × R := fun bm i =>
+      if f2cabs (x.getD (i + 1) 0) ≤ bm.2 then bm else (i + 1, f2cabs (x.getD (i + 1) 0))
+    have key : ∀ m, (loop m (fun (s : Int × R) k =>
+          if f2cabs (x.getD (k + 1) 0) ≤ s.2 then s else (((k + 2 : Nat) : Int), f2cabs (x.getD (k + 1) 0)))
+          ((1 : Int), f2cabs (x.getD 0 0))) =
+        (((((List.range m).foldl G (0, f2cabs (x.getD 0 0))).1 : Nat) : Int) + 1,
+         ((List.range m).foldl G (0, f2cabs (x.getD 0 0))).2) := by
+      intro m
+      induction m with
+      | zero => simp [loop_zero]
+      | succ m ih =>
+        rw [loop_succ, ih, List.range_succ, List.foldl_append]
+        simp only [List.foldl_cons, List.foldl_nil, G]
+        split
+        · rfl
+        · simp; omega
+    rw [key]
+
 
 end Slu.Cblas
